@@ -50,6 +50,7 @@ static void c04_gen(Rng &rng, Plan &plan, bool thorough)
 	plan.setp("file", (int64_t)rng.below(100000));
 	gen_chain_params(rng, plan, true, true);
 	gen_artefact_params(rng, plan, thorough, thorough ? 60000 : 15000);
+	if (rng.chance(60)) { plan.setp("art0_spoil_block", rng.range(1, 6)); plan.setp("art0_kind", 0); }
 	plan.setp("rand_len", (int64_t)rng.size_skewed(3000));
 	plan.setp("rand_seed", (int64_t)(rng.next() >> 2));
 	int nf = (int)rng.below(5);
